@@ -599,7 +599,7 @@ namespace ratio
         for (const auto &l : listeners)
             l->started_solving();
     }
-    CORE_EXPORT void core::fire_solution_found() const noexcept
+    CORE_EXPORT void core::fire_solution_found() const
     {
         for (const auto &l : listeners)
             l->solution_found();
